@@ -627,6 +627,13 @@ FIXED = [
     "from t | join (from u | select !{d}) (==id) | filter u.d > 1",
     "from t | join side:left (from v | select !{x, y}) (==id) | derive {z = v.x + 1} | select {z}",
     "from t | join (from u | select !{d}) (==id) | sort u.d",
+    # a relation whose last transform is a `select` inside a group body (closing Select != the user's select: group keys), as the
+    # main relation, as a let-table and as the `with` of a join; nested anonymous sub-pipelines (table list order != id order)
+    "from t | group g (sort {-a} | take 1 | select {b, c})",
+    "let newest = (from t | group g (sort {-a} | take 1 | select {b, c}))\nfrom u | join newest (u.id == newest.b) | select {u.d, newest.c, newest.g}",
+    "from u | join n = (from t | group g (take 1 | select {b, id})) (==id) | select {u.d, n.b, n.g}",
+    "from t | join c = (from u | join r = (from v | filter x > 1 | select {id, y}) (==id) | select {u.id, u.d, r.y}) (==id) | select {t.a, c.d, c.y}",
+    "from t | append (from u | select {id} | append (from v | select {id} | append (from w | select {id = a})))",
     # F8's family: a top-level scalar value mentioned twice
     "let k = (1 + 2)\nfrom t | derive {a1 = k} | append (from u | derive {b1 = k})",
     "let k = (1 + 2)\nlet x = (from t | derive {a1 = k})\nfrom x | join (from u | derive {b1 = k}) (==id)",
